@@ -38,76 +38,92 @@ def _raw(E, cu, ai, wait, stage, which, base):
     eff_clean = (not ai) if clean_up is None else clean_up
     fn = mkfn(base)
     with E() as env:
-        clock = env.install_clock(cp, limit=3)
-        ref = combo_runner(fn, grid(3), verbosity=0)
-        crop = cp.Crop(fn=fn, name="t", parent_dir=env.parent, batchsize=2)
-        crop.sow_combos(grid(3), verbosity=0)
-        for i in (1, 2):
-            if not (stage == 1 and i == which):
-                cp.grow(i, crop=crop, verbosity=0)
-        rfile = crop_dir(env) + "/results/xyz-result-%d.jbdmp" % which
-        if stage == 2:
-            env.make_unreadable(rfile)
-        if stage == 4:
-            env.make_unreadable(rfile, kind="empty")
-        if stage == 3:
-            env.write_obj(rfile, tuple(env.read_obj(rfile)) + (0,))     # the kind of dump check_bad repairs
-        snap = env.snapshot(crop_dir(env))
-        raised = None
-        out = None
-        try:
-            out = crop.reap(clean_up=clean_up, allow_incomplete=ai, wait=wait)
-        except WaitTimeout:
-            raised = "wait"
-        except XYZError:
-            raised = "xyz"
-        except Exception:  # noqa: unreadable result (EOFError / UnpicklingError / ...)
-            raised = "other"
+        # a second crop in the same directory whose name begins with this crop's name, grown and not reaped:
+        # whatever happens to crop "t", nothing of crop "t2" may be touched, and it still reaps exactly
+        fn2 = mkfn(base + 7)
+        sib = cp.Crop(fn=fn2, name="t2", parent_dir=env.parent, batchsize=2)
+        sib.sow_combos(grid(3), verbosity=0)
+        sib.grow_missing()
+        sib_dir = crop_dir(env, "t2")
+        sib_snap = env.snapshot(sib_dir)
 
-        if stage == 0:
-            if raised or out != ref:
-                return False
-            return env.exists(crop_dir(env)) == (not eff_clean) and (
-                eff_clean or env.same_snapshot(snap, env.snapshot(crop_dir(env))))
+        def core():
+            clock = env.install_clock(cp, limit=3)
+            ref = combo_runner(fn, grid(3), verbosity=0)
+            crop = cp.Crop(fn=fn, name="t", parent_dir=env.parent, batchsize=2)
+            crop.sow_combos(grid(3), verbosity=0)
+            for i in (1, 2):
+                if not (stage == 1 and i == which):
+                    cp.grow(i, crop=crop, verbosity=0)
+            rfile = crop_dir(env) + "/results/xyz-result-%d.jbdmp" % which
+            if stage == 2:
+                env.make_unreadable(rfile)
+            if stage == 4:
+                env.make_unreadable(rfile, kind="empty")
+            if stage == 3:
+                env.write_obj(rfile, tuple(env.read_obj(rfile)) + (0,))     # the kind of dump check_bad repairs
+            snap = env.snapshot(crop_dir(env))
+            raised = None
+            out = None
+            try:
+                out = crop.reap(clean_up=clean_up, allow_incomplete=ai, wait=wait)
+            except WaitTimeout:
+                raised = "wait"
+            except XYZError:
+                raised = "xyz"
+            except Exception:  # noqa: unreadable result (EOFError / UnpicklingError / ...)
+                raised = "other"
 
-        if stage == 1:
-            if wait:
-                ok = raised == "wait"          # keeps polling; never a wrong answer
-            elif ai:
-                if raised:
+            if stage == 0:
+                if raised or out != ref:
                     return False
-                # finished batch exact, the other missing
-                flat = list(out)
-                sizes = {1: [0, 1], 2: [2]}
-                for i in (1, 2):
-                    for pos in sizes[i]:
-                        if i == which:
-                            if not is_nan(flat[pos]):
+                return env.exists(crop_dir(env)) == (not eff_clean) and (
+                    eff_clean or env.same_snapshot(snap, env.snapshot(crop_dir(env))))
+
+            if stage == 1:
+                if wait:
+                    ok = raised == "wait"          # keeps polling; never a wrong answer
+                elif ai:
+                    if raised:
+                        return False
+                    # finished batch exact, the other missing
+                    flat = list(out)
+                    sizes = {1: [0, 1], 2: [2]}
+                    for i in (1, 2):
+                        for pos in sizes[i]:
+                            if i == which:
+                                if not is_nan(flat[pos]):
+                                    return False
+                            elif flat[pos] != ref[pos]:
                                 return False
-                        elif flat[pos] != ref[pos]:
-                            return False
-                if eff_clean:
-                    return not env.exists(crop_dir(env))
-                ok = True
-            else:
-                ok = raised == "xyz"
-            # crop intact, fix the cause, reap again: exact
+                    if eff_clean:
+                        return not env.exists(crop_dir(env))
+                    ok = True
+                else:
+                    ok = raised == "xyz"
+                # crop intact, fix the cause, reap again: exact
+                if not env.same_snapshot(snap, env.snapshot(crop_dir(env))):
+                    return False
+                cp.Crop(name="t", parent_dir=env.parent).grow_missing()
+                again = cp.Crop(name="t", parent_dir=env.parent).reap()
+                return ok and again == ref and not env.exists(crop_dir(env))
+
+            # stage 2 / 3: unreadable or over-long result -> every reap raises and leaves everything in place
+            if raised is None or raised == "wait":
+                return False
             if not env.same_snapshot(snap, env.snapshot(crop_dir(env))):
                 return False
-            cp.Crop(name="t", parent_dir=env.parent).grow_missing()
-            again = cp.Crop(name="t", parent_dir=env.parent).reap()
-            return ok and again == ref and not env.exists(crop_dir(env))
+            c2 = cp.Crop(name="t", parent_dir=env.parent)
+            c2.check_bad()
+            c2.grow_missing()
+            again = c2.reap()
+            return again == ref and not env.exists(crop_dir(env))
 
-        # stage 2 / 3: unreadable or over-long result -> every reap raises and leaves everything in place
-        if raised is None or raised == "wait":
+        if not core():
             return False
-        if not env.same_snapshot(snap, env.snapshot(crop_dir(env))):
+        if not env.exists(sib_dir) or not env.same_snapshot(sib_snap, env.snapshot(sib_dir)):
             return False
-        c2 = cp.Crop(name="t", parent_dir=env.parent)
-        c2.check_bad()
-        c2.grow_missing()
-        again = c2.reap()
-        return again == ref and not env.exists(crop_dir(env))
+        return cp.Crop(name="t2", parent_dir=env.parent).reap() == combo_runner(fn2, grid(3), verbosity=0)
 
 
 # ---------------------------------------------------------------------------
@@ -129,10 +145,13 @@ def body_farmer(E, kind, stage, cu, base, ai=False):
     from xyzpy.gen.farming import Runner, Harvester, Sampler
 
     kind = concretize(kind, 0, 2)
-    stage = concretize(stage, 0, 4)
+    stage = concretize(stage, 0, 5)
     cu = concretize(cu, 0, 2)
     clean_up = [None, True, False][cu]
     ai = cbool(ai)
+    if stage == 5 and kind == 2:
+        stage = 0            # as for stage 1
+    multi = stage == 5       # the function returns three outputs and only two are named
     if stage != 0:
         ai = False
     eff_clean = (not ai) if clean_up is None else clean_up
@@ -145,10 +164,11 @@ def body_farmer(E, kind, stage, cu, base, ai=False):
     E2 = FSYM if E is SYM else E
     with E2() as env:
         def fn(a, b=20):
-            return base + 100 * a + b
+            v = base + 100 * a + b
+            return (v, v + 1, v + 2) if multi else v
 
-        good = "x"
-        names = ("x", "y") if stage == 1 else good
+        good = ("x", "y", "z") if multi else "x"
+        names = ("x", "y") if stage in (1, 5) else good
         runner = Runner(fn, names)
         ref_runner = Runner(fn, good)
         combos = {"a": [10, 11, 12]}
@@ -208,11 +228,11 @@ def body_farmer(E, kind, stage, cu, base, ai=False):
             if not raised or not env.exists(cdir) or not env.same_snapshot(snap, env.snapshot(cdir)):
                 return False
             # correct the cause, reap again
-            if stage == 1:
-                if kind == 0:
-                    crop.farmer.var_names = good
-                else:
-                    crop.farmer.runner.var_names = good
+            if stage in (1, 5):
+                r_ = crop.farmer if kind == 0 else crop.farmer.runner
+                r_.var_names = good
+                if stage == 5:
+                    r_.var_dims = None          # re-derived for the corrected names
                 out = crop.reap(clean_up=clean_up)
             elif stage == 2:
                 out = crop.reap(clean_up=clean_up, overwrite=True)
@@ -257,10 +277,10 @@ CONDS = [
 ]
 
 CONDS += split_conds(
-    _G, "farmer", body_farmer, "stage:int cu:int base:int ai:bool", ["0 <= stage <= 4 and 0 <= cu <= 2"], "kind", [0, 1, 2],
+    _G, "farmer", body_farmer, "stage:int cu:int base:int ai:bool", ["0 <= stage <= 5 and 0 <= cu <= 2"], "kind", [0, 1, 2],
     timeout=600,
     bounds="farmer-attached crops (kind 0 Runner, 1 Harvester, 2 Sampler) of 2 batches; failure injected at: "
-           "dataset construction (wrong number of var_names), harvester merge conflict, saving the merged data "
+           "dataset construction (more var_names than outputs; stage 5: fewer var_names than outputs), harvester merge conflict, saving the merged data "
            "(save_ds / save_df raising once), an over-long result dump; clean_up None/True/False; then the "
            "corrected retry; without a failure also allow_incomplete=True on the complete crop (default clean_up then "
            "keeps the crop)")
